@@ -102,11 +102,25 @@ def parseTok (s : String) : Option Ev :=
 
 def historyPart (line : String) : String := ((line.splitOn " | ").getLast?).getD ""
 
+/-- `r<t>:v=X/cb=A/now=B`: the callback was called with `A` and read `B` under the same key while it ran -/
+def rereadOf (t : String) : Option (Option Val × Option Val × String) :=
+  match t.splitOn "/now=" with
+  | [front, b] =>
+    match front.splitOn "/cb=" with
+    | [_, a] => do some ((← parseOptVal a), (← parseOptVal b), front)
+    | _ => none
+  | _ => none
+
 def judgeLine (line : String) : String :=
-  let toks := words (historyPart line)
-  match toks.find? (fun t => (t.splitOn ":panic").length > 1 || t == "r9:deadlock" || t == "r9:diverged") with
-  | some t => if t == "r9:diverged" then "skip diverged" else s!"violates no-crash {t}"
-  | none =>
+  let toks0 := words (historyPart line)
+  let stale := toks0.find? (fun t => match rereadOf t with
+    | some (a, b, _) => !cbCurrent a b
+    | none => false)
+  let toks := toks0.map (fun t => match rereadOf t with | some (_, _, front) => front | none => t)
+  match toks.find? (fun t => (t.splitOn ":panic").length > 1 || t == "r9:deadlock" || t == "r9:diverged"), stale with
+  | some t, _ => if t == "r9:diverged" then "skip diverged" else s!"violates no-crash {t}"
+  | none, some t => s!"violates callbacks-see-current-value {t}"
+  | none, none =>
     -- results the wrapper does not report (`r<t>:?`, only for `clos`): the history is linearizable if it is for SOME result the
     -- call may have had (it stored its own element, or it found one of the values ever offered for that key)
     let vals : List Val := (toks.filterMap (fun t => if t.startsWith "c" then
